@@ -18,6 +18,8 @@
   Retrying clients: the back-off is part of the call's wait (`C08_backoff_selects_ctx`, folded into `selCtx`;
   `C08_backoff_sleep_witness`).  Requests of the server on the client side: the answer POST is a ledger resource
   (`St.answerPost`, fact `answerBound`, `C08_answer_posts_bound`, `C08_answer_post_outlives_close_witness`).
+  Independence of calls: `C08_calls_independent` (fact `lockFree`, instance `C08_no_lock_across_reads`) with
+  `C08_lock_across_read_witness`.
   Server-issued requests: `C08_server_pending_released` (instance `C08_server_inserts_deferred`) with
   `C08_server_pending_leak_witness`.
 -/
@@ -249,10 +251,10 @@ private theorem complete_err (f : Facts) (cfg : Cfg) (s : St) (c : Nat) (k : Cas
     (hrecv : k = .closedChan → f.recvOk = true)
     (hno : f.oneCloser = true ∨ (s.calls c).chClosed = false) :
     ∃ s', step f cfg s (.complete c k) = some s' ∧ (s'.calls c).returned = some .err := by
-  have hstep : step f cfg s (.complete c k) = some (setCall s c { (s.calls c) with
+  have hstep : step f cfg s (.complete c k) = some { setCall s c { (s.calls c) with
       returned := some (result f (s.calls c) k),
       inTable := (s.calls c).inTable && !(f.deleteDeferred || k = .answer),
-      body := relBody f cfg (s.calls c) k }) := by simp [step, hw, hk]
+      body := relBody f cfg (s.calls c) k } with heldReads := heldAfter f cfg (s.calls c) s.heldReads } := by simp [step, hw, hk]
   refine ⟨_, hstep, ?_⟩
   simp only [setCall, ite_true, result]
   rcases hno with h | h
@@ -263,10 +265,10 @@ private theorem complete_ok (f : Facts) (cfg : Cfg) (s : St) (c : Nat)
     (hw : waiting (s.calls c) = true) (hk : ready f cfg s (s.calls c) .answer = true)
     (hno : f.oneCloser = true ∨ (s.calls c).chClosed = false) :
     ∃ s', step f cfg s (.complete c .answer) = some s' ∧ (s'.calls c).returned = some .ok := by
-  have hstep : step f cfg s (.complete c .answer) = some (setCall s c { (s.calls c) with
+  have hstep : step f cfg s (.complete c .answer) = some { setCall s c { (s.calls c) with
       returned := some (result f (s.calls c) .answer),
       inTable := (s.calls c).inTable && !(f.deleteDeferred || Case.answer = .answer),
-      body := relBody f cfg (s.calls c) .answer }) := by simp [step, hw, hk]
+      body := relBody f cfg (s.calls c) .answer } with heldReads := heldAfter f cfg (s.calls c) s.heldReads } := by simp [step, hw, hk]
   refine ⟨_, hstep, ?_⟩
   simp only [setCall, ite_true, result]
   rcases hno with h | h <;> simp_all
@@ -444,6 +446,39 @@ theorem C08_server_pending_leak_witness :
         [.issue 0, .connErr 0, .complete 0 .connErr] = some s ∧ (s.calls 0).returned = some .err ∧ (s.calls 0).inTable = true := by
   refine ⟨_, rfl, ?_⟩; decide
 
+/-! ## C08: calls are independent of each other -/
+
+private theorem lock_step (f : Facts) (cfg : Cfg) (hl : f.lockFree = true) (s s' : St) (e : Ev)
+    (h : s.heldReads = 0 ∧ s.writerWaiting = false) (hs : step f cfg s e = some s') :
+    s'.heldReads = 0 ∧ s'.writerWaiting = false := by
+  obtain ⟨h1, h2⟩ := h
+  step_cases hs
+  all_goals (try (simp_all [heldAfter]; done))
+
+/-- **Independence.** With `lockFree` (no stream-reading function of the transport holds a lock across its read loop — the
+    regenerated fact of `C08_no_lock_across_reads`), in every reachable state nobody holds a lock of the transport while
+    reading and nobody waits for one: what a call, Close() or the handler registry can do never depends on another call
+    being stalled — `Register/UnregisterNotificationHandler` go through in every reachable state, and
+    `C08_close_takes_effect` / `C08_returns` hold whatever the other calls do. -/
+theorem C08_calls_independent (f : Facts) (cfg : Cfg) (hl : f.lockFree = true)
+    (evs : List Ev) (s : St) (hr : run f cfg (init cfg) evs = some s) :
+    s.heldReads = 0 ∧ s.writerWaiting = false ∧ step f cfg s .handlerOp = some s := by
+  have h := run_induct f cfg (fun s => s.heldReads = 0 ∧ s.writerWaiting = false)
+    (fun s s' e h hs => lock_step f cfg hl s s' e h hs) evs (init cfg) s (by simp [init]) hr
+  exact ⟨h.1, h.2, by simp [step, hl]⟩
+
+/-- Witness for a read lock held across the stream read (`defer RUnlock` in `handleSSEResponse`): one call is stalled on its
+    SSE answer (headers, then silence); `RegisterNotificationHandler` blocks behind it and, waiting for the write side,
+    keeps every later reader out: a second call never gets to read its (complete) answer, and Close() blocks too — nothing
+    is closed. -/
+theorem C08_lock_across_read_witness :
+    ∃ s, run { Facts.allGood with lockFree := false } { t := .streamSse } (init { t := .streamSse })
+        [.issue 0, .headers 0 true, .handlerOp, .issue 1] = some s ∧ s.heldReads = 1 ∧ s.writerWaiting = true ∧
+      step { Facts.allGood with lockFree := false } { t := .streamSse } s (.headers 1 true) = none ∧
+      step { Facts.allGood with lockFree := false } { t := .streamSse } s (.deliver 1) = none ∧
+      (∃ s', step { Facts.allGood with lockFree := false } { t := .streamSse } s .closeBegin = some s' ∧ s'.closing = false) := by
+  refine ⟨_, rfl, by decide, by decide, by decide, by decide, ⟨_, rfl, by decide⟩⟩
+
 /-! ## C08: the resource ledger after Close -/
 
 /-- Component-wise, for any facts: after Close() has begun, in a quiescent state, the reader and the child are gone; the
@@ -494,18 +529,18 @@ theorem C08_ledger_zero_after_close (f : Facts) (cfg : Cfg)
   exact ⟨c hb, a, b, (d hw).1, (d hw).2, e (Or.inl hg), g ha⟩
 
 /-- **Close takes effect whatever the client's state.** With `closeAny` (Close() reaches `transport.close()` under no
-    condition but `transport != nil`), in every reachable state in which Close has not begun — in particular after a
+    condition but `transport != nil`) and `lockFree` (no call holds a lock of the transport while it reads its stream), in every reachable state in which Close has not begun — in particular after a
     failed handshake or while one is in flight, when the client's state is Disconnected but the transport is up — Close()
     runs to completion: the closed flag is set, the pending channels are closed.  (`C08_ledger_zero_after_close` then
     applies to what follows.) -/
-theorem C08_close_takes_effect (f : Facts) (cfg : Cfg) (ha : f.closeAny = true)
+theorem C08_close_takes_effect (f : Facts) (cfg : Cfg) (ha : f.closeAny = true) (hl : f.lockFree = true)
     (evs : List Ev) (s : St) (hr : run f cfg (init cfg) evs = some s) (hc : s.closing = false) :
     ∃ s', run f cfg s [.closeBegin, .closeEnd] = some s' ∧ s'.closed = true ∧ s'.closing = true := by
   have hcd : s.closed = false := by
     cases h : s.closed with
     | false => rfl
     | true => have := (all_reach f cfg evs s hr).1.2.1 h; simp [hc] at this
-  cases ht : cfg.t <;> simp [run, step, hc, ha, ht, hcd, Transport.shared]
+  cases ht : cfg.t <;> simp [run, step, hc, ha, hl, ht, hcd, Transport.shared]
 
 /-- Witness for a Close() guarded by the client's state (returns early when the state is Disconnected): the legacy SSE
     handshake fails after the event stream is up (the initialize POST is answered by nothing, the caller's deadline
@@ -638,6 +673,13 @@ theorem C08_server_inserts_deferred : ∀ sv : Server, (srvFacts srvInserts sv).
 open Mcp.Gen.CallFacts in
 /-- (d) `Client.Close` and `StdioClient.Close` reach `transport.close()` under no condition but `transport != nil`. -/
 theorem C08_close_unguarded : ∀ c : Client, clTables.closeUnguarded.any (· = c) = true := by
+  intro c; cases c <;> decide
+
+open Mcp.Gen.CallFacts in
+/-- (h) No stream-reading function of the three client transports (`handleSSEResponse`, `handleGetSSEEvents`, `readSSE`,
+    `readLoop`, …) holds a lock across its read loop: no deferred unlock in such a function, every lock taken before the
+    loop released before it. -/
+theorem C08_no_lock_across_reads : ∀ c : Client, clTables.lockFree.any (· = c) = true := by
   intro c; cases c <;> decide
 
 open Mcp.Gen.CallFacts in
